@@ -459,6 +459,51 @@ pub fn for_each_tree(sc: &TreeScope, st: &mut Striper, visit: &mut dyn FnMut(&Te
       }
     });
   }
+  // Concat[Replace(leaf, set of <= 2), other] both orders over a reduced alphabet (a composite sees the
+  // GeneratedInfo a ReplaceSource returns), and Cached(Replace(leaf, set of <= 2)) (replay over rope())
+  let others: Vec<Term> = sc.small_leaves.iter().filter(|t| matches!(t, Term::Raw(_) | Term::Orig(..))).step_by(3).cloned().collect();
+  for l in &sc.small_leaves {
+    let text = model::model_text(l);
+    let rs = ReplScope {
+      names2: false,
+      contents1: &[],
+      contents2: &["", "X", "\n"],
+      names1: false,
+      enforce1: false,
+      max: 2,
+      over: 1,
+      text: &text,
+    };
+    for_each_replset(&rs, &mut |set| {
+      if set.len() < 2 {
+        return;
+      }
+      let r = Term::replace(l.clone(), set);
+      if st.mine() {
+        visit(&Term::cached(r.clone()));
+      }
+      for o in &others {
+        for t in [Term::concat(vec![r.clone(), o.clone()]), Term::concat(vec![o.clone(), r.clone()])] {
+          if st.mine() {
+            visit(&t);
+          }
+        }
+      }
+    });
+  }
+  // a cached concatenation that ends in an empty child, inside a concatenation
+  for a in &sc.small_leaves {
+    for b in &sc.small_leaves {
+      for e in [Term::raw(""), Term::orig("", "f0")] {
+        let c = Term::cached(Term::concat(vec![a.clone(), b.clone(), e.clone()]));
+        for t in [c.clone(), Term::concat(vec![c.clone(), Term::orig("a", "f1")]), Term::concat(vec![Term::raw("a"), c.clone(), Term::raw("b")])] {
+          if st.mine() {
+            visit(&t);
+          }
+        }
+      }
+    }
+  }
   // nested concats in every grouping style
   for a in &sc.small_leaves {
     for b in &sc.small_leaves {
@@ -480,4 +525,38 @@ pub fn for_each_tree(sc: &TreeScope, st: &mut Striper, visit: &mut dyn FnMut(&Te
       }
     }
   }
+}
+
+/// Mapped leaves whose names tables differ from each other (same string under different local
+/// indices, different strings under the same index, tables of different length).
+pub fn named_variants() -> Vec<Term> {
+  let mut v = Vec::new();
+  let tables: [&[&str]; 4] = [&["n0", "n1"], &["n1", "n0"], &["m"], &["n1"]];
+  for (ti, names) in tables.iter().enumerate() {
+    for idx in 0..names.len() as u32 {
+      let mut m = MapSpec::new(
+        vec![Seg { gl: 1, gc: 0, orig: Some((0, 1, 0, Some(idx))) }, Seg { gl: 1, gc: 1, orig: Some((0, 1, 1, None)) }],
+        &["s0"],
+        Some(&["ab\ncd"]),
+        names,
+      );
+      m.file = None;
+      v.push(Term::Sms(Box::new(SmsSpec {
+        value: "ab".into(),
+        name: format!("nv{ti}{idx}"),
+        map: m,
+        original_source: None,
+        inner: None,
+        remove: false,
+      })));
+    }
+  }
+  // the same through a lazily announcing user source
+  v.push(Term::Script(Box::new(ScriptSpec {
+    pieces: vec![("a".into(), Some((0, 1, 0, Some(1)))), ("b".into(), Some((0, 1, 1, Some(0))))],
+    sources: vec![("s0".into(), Some("ab\ncd".into()))],
+    names: vec!["n1".into(), "m".into()],
+    lazy: true,
+  })));
+  v
 }
